@@ -8,6 +8,7 @@ import (
 
 	"golang.org/x/tools/go/ssa"
 
+	"lwverif/internal/effects"
 	"lwverif/internal/guards"
 )
 
@@ -100,39 +101,8 @@ func c19Prefix(c *Ctx, a *guards.FuncAn, enc *ssa.Function) {
 	r := c.Run
 	P := c.Prog
 	const key = "applayer/fragmentation.Encode/result rows"
-	data, fs := enc.Params[0], enc.Params[1]
-	// (a) find the row-building loop: a phi B = φ(empty, append(B, elem)) of type [][]byte
-	var base *ssa.Phi
-	var app *ssa.Call
-	var elem ssa.Value
-	for _, b := range enc.Blocks {
-		for _, ins := range b.Instrs {
-			phi, ok := ins.(*ssa.Phi)
-			if !ok {
-				break
-			}
-			if !types.Identical(phi.Type(), enc.Signature.Results().At(0).Type()) || len(phi.Edges) != 2 {
-				continue
-			}
-			for i, e := range phi.Edges {
-				call, ok := a.Canon(e).(*ssa.Call)
-				if !ok {
-					continue
-				}
-				bs, els, ok := guardAppendedElems(call)
-				if !ok || a.Canon(bs) != ssa.Value(phi) || len(els) != 1 {
-					continue
-				}
-				other := a.Canon(phi.Edges[1-i])
-				if !(isNilConstValue(other) || guards.SameLin(a.LenOf(other), guards.Konst(0))) {
-					continue
-				}
-				if sl, ok := a.Canon(els[0]).(*ssa.Slice); ok && a.Canon(sl.X) == ssa.Value(data) {
-					base, app, elem = phi, call, els[0]
-				}
-			}
-		}
-	}
+	fs := enc.Params[1]
+	base, app, elem := c19FindRows(a, enc)
 	if base == nil {
 		r.Unknown("R2.prefix", key, P.Rel(enc.Pos()), "a loop that appends slices of the input to an initially empty row list", "shape not recognised")
 		return
@@ -151,16 +121,29 @@ func c19Prefix(c *Ctx, a *guards.FuncAn, enc *ssa.Function) {
 			}
 		}
 	}
-	if idx == nil || sl.High == nil {
-		r.Unknown("R2.prefix", key, pos, "row i is data[i*fragmentSize : i*fragmentSize+fragmentSize]", "low bound is not index*fragmentSize")
+	width := guards.Lin{}
+	if sl.High != nil && sl.Low != nil {
+		width = guards.Sub(a.Lin(sl.High), a.Lin(sl.Low))
+	}
+	okWidth := sl.High != nil && sl.Low != nil && guards.SameLin(width, a.Lin(fs))
+	switch {
+	case idx != nil && sl.High != nil:
+		blk := app.Block()
+		okPos := a.EntailsEq(blk, guards.Sub(a.LenOf(base), a.Lin(idx)))
+		got := fmt.Sprintf("appended element %s; width = %s; position: len(rows) - index == 0 entailed=%v", guardClip(sl.String()), width.String(), okPos)
+		r.Check(okWidth && okPos, "R2.prefix", key+"/element", pos, "row i is data[i*fs:(i+1)*fs] and is appended at position i", got, true)
+	case sl.Low != nil && sl.High != nil:
+		_, okStride := c19Strided(a, base, sl.Low, fs)
+		if !okStride {
+			r.Unknown("R2.prefix", key, pos, "row i is data[i*fragmentSize : i*fragmentSize+fragmentSize]", "low bound is neither index*fragmentSize nor a counter advancing by fragmentSize in lock-step with the row list")
+			return
+		}
+		got := fmt.Sprintf("appended element %s; width = %s; low bound starts at 0 and advances by fragmentSize once per appended row", guardClip(sl.String()), width.String())
+		r.Check(okWidth, "R2.prefix", key+"/element", pos, "row i is data[i*fs:(i+1)*fs] and is appended at position i", got, true)
+	default:
+		r.Unknown("R2.prefix", key, pos, "row i is data[i*fragmentSize : i*fragmentSize+fragmentSize]", "slice bounds not recognised")
 		return
 	}
-	width := guards.Sub(a.Lin(sl.High), a.Lin(sl.Low))
-	okWidth := guards.SameLin(width, a.Lin(fs))
-	blk := app.Block()
-	okPos := a.EntailsEq(blk, guards.Sub(a.LenOf(base), a.Lin(idx)))
-	got := fmt.Sprintf("appended element %s; width = %s; position: len(rows) - index == 0 entailed=%v", guardClip(sl.String()), width.String(), okPos)
-	r.Check(okWidth && okPos, "R2.prefix", key+"/element", pos, "row i is data[i*fs:(i+1)*fs] and is appended at position i", got, true)
 	// (c) every successful return value extends that list by appends only
 	nret := 0
 	for _, b := range enc.Blocks {
@@ -209,11 +192,17 @@ func c19Prefix(c *Ctx, a *guards.FuncAn, enc *ssa.Function) {
 						}
 						continue
 					}
-					for _, arg := range x.Common().Args {
+					for ai, arg := range x.Common().Args {
 						switch arg.Type().Underlying().(type) {
 						case *types.Slice, *types.Pointer:
+							if _, fresh := a.Canon(arg).(*ssa.MakeSlice); fresh {
+								continue // a buffer made in this function may be filled by a helper
+							}
+							if callee := x.Common().StaticCallee(); callee != nil && c19CalleeReadsOnly(c, callee, ai) {
+								continue
+							}
 							okWrites = false
-							why += "slice/pointer passed to " + x.Common().Value.Name() + " at " + P.Rel(x.Pos()) + "; "
+							why += "slice/pointer passed to " + x.Common().Value.Name() + " at " + P.Rel(x.Pos()) + " (callee may write through it); "
 						}
 					}
 				}
@@ -221,6 +210,70 @@ func c19Prefix(c *Ctx, a *guards.FuncAn, enc *ssa.Function) {
 		}
 	}
 	r.Check(okWrites, "R2.prefix", key+"/no-rewrite", P.Rel(enc.Pos()), "rows are never written after being appended", fmt.Sprintf("%s%d element stores, all into fresh make() slices", why, nst), true)
+}
+
+// c19FindRows finds the row-building loop: a phi B = φ(empty, append(B, elem)) of the result type whose appended
+// element is a slice of the input.
+func c19FindRows(a *guards.FuncAn, enc *ssa.Function) (base *ssa.Phi, app *ssa.Call, elem ssa.Value) {
+	data := enc.Params[0]
+	for _, b := range enc.Blocks {
+		for _, ins := range b.Instrs {
+			phi, ok := ins.(*ssa.Phi)
+			if !ok {
+				break
+			}
+			if !types.Identical(phi.Type(), enc.Signature.Results().At(0).Type()) || len(phi.Edges) != 2 {
+				continue
+			}
+			for i, e := range phi.Edges {
+				call, ok := a.Canon(e).(*ssa.Call)
+				if !ok {
+					continue
+				}
+				bs, els, ok := guardAppendedElems(call)
+				if !ok || a.Canon(bs) != ssa.Value(phi) || len(els) != 1 {
+					continue
+				}
+				other := a.Canon(phi.Edges[1-i])
+				if !(isNilConstValue(other) || guards.SameLin(a.LenOf(other), guards.Konst(0))) {
+					continue
+				}
+				if sl, ok := a.Canon(els[0]).(*ssa.Slice); ok && a.Canon(sl.X) == ssa.Value(data) {
+					base, app, elem = phi, call, els[0]
+				}
+			}
+		}
+	}
+	return
+}
+
+// c19Strided: the low bound of the appended slice is a counter of the same loop head as the row list that starts at 0
+// where the list starts empty and advances by fragmentSize on the edge on which one row is appended: by induction the
+// k-th appended row starts at k*fragmentSize (lock-step counters).
+func c19Strided(a *guards.FuncAn, base *ssa.Phi, low ssa.Value, fs ssa.Value) (*ssa.Phi, bool) {
+	lp, ok := a.Canon(low).(*ssa.Phi)
+	if !ok || lp.Block() != base.Block() || len(lp.Edges) != 2 {
+		return nil, false
+	}
+	for i := range base.Edges {
+		_, isAppend := a.Canon(base.Edges[i]).(*ssa.Call)
+		e := a.Canon(lp.Edges[i])
+		if isAppend {
+			bo, ok := e.(*ssa.BinOp)
+			if !ok || bo.Op != token.ADD {
+				return nil, false
+			}
+			if !((a.Canon(bo.X) == ssa.Value(lp) && a.Canon(bo.Y) == fs) || (a.Canon(bo.Y) == ssa.Value(lp) && a.Canon(bo.X) == fs)) {
+				return nil, false
+			}
+		} else {
+			k, ok := e.(*ssa.Const)
+			if !ok || k.Value == nil || k.Int64() != 0 {
+				return nil, false
+			}
+		}
+	}
+	return lp, true
 }
 
 // c19ExtendsFrom: v is base, an append onto something that extends base, or a phi of such values.
@@ -267,9 +320,27 @@ func c19Count(c *Ctx, a *guards.FuncAn, enc *ssa.Function) {
 			}
 		}
 	}
+	var strideBase *ssa.Phi
 	if q == nil {
-		r.Unknown("R3.count", key, P.Rel(enc.Pos()), "the fragment count len(data)/fragmentSize is computed", "expression not found")
-		return
+		// strided form: `for off := 0; off < len(data); off += fragmentSize { rows = append(rows, data[off:off+fs]) }`.
+		// The loop leaves only when off >= len(data) and off = fs*len(rows) (lock-step), so len(rows) >= len(data)/fs
+		// at its exit; the obligation is then stated relative to the row list at that exit.
+		base, _, elem := c19FindRows(a, enc)
+		if base != nil {
+			if sl, ok := a.Canon(elem).(*ssa.Slice); ok && sl.Low != nil {
+				if lp, ok := c19Strided(a, base, sl.Low, fs); ok {
+					if br, ok := base.Block().Instrs[len(base.Block().Instrs)-1].(*ssa.If); ok {
+						if cmp, ok := br.Cond.(*ssa.BinOp); ok && cmp.Op == token.LSS && a.Canon(cmp.X) == ssa.Value(lp) && guards.SameLin(a.Lin(cmp.Y), a.LenOf(data)) {
+							strideBase = base
+						}
+					}
+				}
+			}
+		}
+		if strideBase == nil {
+			r.Unknown("R3.count", key, P.Rel(enc.Pos()), "the fragment count len(data)/fragmentSize is computed, or the rows are cut by a counter advancing by fragmentSize while it is below len(data)", "neither form found")
+			return
+		}
 	}
 	n := 0
 	for _, b := range enc.Blocks {
@@ -278,9 +349,14 @@ func c19Count(c *Ctx, a *guards.FuncAn, enc *ssa.Function) {
 			continue
 		}
 		n++
-		goal := guards.Sub(guards.Sub(a.LenOf(ret.Results[0]), a.Lin(q)), a.Lin(red))
+		var goal guards.Lin
+		if q != nil {
+			goal = guards.Sub(guards.Sub(a.LenOf(ret.Results[0]), a.Lin(q)), a.Lin(red))
+		} else {
+			goal = guards.Sub(guards.Sub(a.LenOf(ret.Results[0]), a.LenOf(strideBase)), a.Lin(red))
+		}
 		ok2 := a.Entails(b, goal)
-		got := "len(result) - len(data)/fragmentSize - redundancy >= 0 from " + a.FactsText(b, goal)
+		got := "len(result) - (number of data rows) - redundancy >= 0 from " + a.FactsText(b, goal)
 		if !ok2 {
 			got = "cannot show " + goal.String() + " >= 0; facts: " + a.FactsText(b, goal)
 		}
@@ -369,3 +445,21 @@ func guardClip(s string) string {
 }
 
 func guardExprText(f *ssa.Function, pos token.Pos) string { return guards.ExprAt(f, pos) }
+
+// c19CalleeReadsOnly: the effect summary of the module function callee has no write, append or opaque escape through
+// its parameter i.
+func c19CalleeReadsOnly(c *Ctx, callee *ssa.Function, i int) bool {
+	info := effectsFor(c.Prog)
+	sum := info.A.Sums[callee]
+	if sum == nil {
+		return false
+	}
+	for _, m := range []map[string][]*effects.Effect{sum.Writes, sum.Appends, sum.Opaque} {
+		for l := range m {
+			if effects.ParamIndex(l) == i {
+				return false
+			}
+		}
+	}
+	return true
+}
